@@ -3,7 +3,6 @@ package main
 import (
 	"fmt"
 	"go/token"
-	"path/filepath"
 	"sort"
 	"strings"
 
@@ -211,7 +210,9 @@ func runC04(c *Ctx) {
 	if pa := p.Func("waddrmgr", "", "putAddress"); pa != nil {
 		ok := false
 		for _, call := range callsNamed(pa, "putAddrAccountIndex") {
-			ok = fromSha256OfParam(p, pa, call.Call.Args[3])
+			if a := p.argNamed(call, "addrHash", 3); a != nil {
+				ok = fromSha256OfParam(p, pa, a)
+			}
 		}
 		c.Check("C04-R3", "account-index-keyed-by-hash", pa.Pos(), ok, "the address->account index is not keyed by sha256(address id)")
 		checkHashedBucketKeys(c, "C04-R3")
@@ -230,14 +231,23 @@ func runC04(c *Ctx) {
 				continue
 			}
 			nMut++
-			file := filepath.Base(p.Fset.Position(ci.Pos()).Filename)
-			okSite := file == "db.go" || file == "migrations.go"
+			// the persistence layer, by role (not by file name): package-level functions — no receiver — that are
+			// handed the bucket they write to. The managers' methods are the logic layer above it.
+			top := outermost(fn)
+			okSite := false
+			if top.Signature.Recv() == nil {
+				for _, prm := range top.Params {
+					if strings.Contains(prm.Type().String(), "walletdb.ReadWriteBucket") || strings.Contains(prm.Type().String(), "walletdb.ReadBucket") {
+						okSite = true
+					}
+				}
+			}
 			if _, ok := allowedOutside[outermost(fn).Name()]; ok {
 				okSite = true
 			}
 			if !okSite {
 				c.Check("C04-R4", "db-mutator-outside-persistence-layer:"+fnName(fn)+"/"+name, ci.Pos(), false,
-					"a database mutator is called outside the persistence helpers (db.go / migrations.go): the encrypt-before-put discipline is only enforced at the helpers' slots")
+					"a database mutator is called from a manager method instead of a persistence helper (a package-level function that is handed the bucket): the encrypt-before-put discipline is only enforced at the helpers' slots")
 			}
 		}
 	}
